@@ -9,8 +9,10 @@ def run(ctx, replay=None):
     extra = cli.judge_cli(ctx, "C10")
     inv = ["TypeInv", "Idempotent", "ConvergedAfterDefault"]
     if ctx.quick:
-        mc = [dict(shape="chain", max_env=2, flagsets="NoAllFlagSets", invariants=inv, properties=[])]
-        ex = [dict(shape="chain", max_env=2, flags="m,c,o,e", faults=False)]
+        mc = [dict(shape="chain", max_env=2, flagsets="CoreFlagSets", invariants=inv, properties=[]),
+              dict(shape="chain", max_env=1, flagsets="NoAllFlagSets", invariants=inv, properties=[])]
+        ex = [dict(shape="chain", max_env=2, flags="m,c,o", extra="e;c,e,m;e,o", faults=False),
+              dict(shape="star", max_env=1, flags="m,c,o,e", faults=False, env="Edit,Touch,DeleteArt,StripKey,Replace,MakeCsr,EditProfile,Expire")]
     else:
         mc = [dict(shape=s, max_env=3, flagsets="NoAllFlagSets", invariants=inv, properties=[]) for s in ("chain", "star", "two")]
         ex = [dict(shape="chain", max_env=3, flags="m,c,o,e", faults=False),
